@@ -300,7 +300,7 @@ def run(tier, seed, started):
                       seed=seed, nproc=4, chunk=1)
     c = res.counters
     if c.get('states', 0) < 500 or res.sets.get('event_kinds') != ALL_EVENTS:
-        raise common.Broken(f'vacuous C20 run: {c} {res.sets.get("event_kinds")}')
+        common.vacuous(PROP, res, f'vacuous C20 run: {c} {res.sets.get("event_kinds")}')
     coverage = {
         'states': c['states'], 'transitions': c['transitions'],
         'traces_validated_against_impl': c['states'],
